@@ -152,7 +152,7 @@ def conv_enc(raw, api="chunks", aad="key", cs=None, kseed=1, pseed=1, sid=""):
             "id": sid, "exp": {"res": raw["exp"]["res"], "chunks": [c * scale for c in raw["exp"]["chunks"]]}}
 
 
-SRC_MODEL = {"Src322": [[2, 2, 1], [2, 1]], "Src21": [[2, 1], [1]], "Src1": [[2], [1]], "Src0": [[0], [2, 1]], "Src22": [[2, 2], [2]]}
+SRC_MODEL = {"Src322": [[2, 2, 1], [2, 1]], "Src21": [[2, 1], [1]], "Src1": [[2], [1]], "Src0": [[0], [2, 1]], "Src22": [[2, 2], [2]], "Src121": [[1, 2, 1], [1, 1]]}
 
 
 def conv_dec(raw, srcname, api="chunks", aad="key", sid="", variants=1):
